@@ -79,6 +79,8 @@ class Pipeline:
         K, z3, Handler, mk_solver, FunctionInfo, Path, SMTQuery, ContractContext, FunctionContext, solve_end_to_end = _env()
         self.K, self.solve = K, solve_end_to_end
         self.args = eng.args(cache_solver=cache, solver_command=solver_cmd, solver_timeout_assertion=4.0)
+        self.args_long = eng.args(cache_solver=cache, solver_command=solver_cmd, solver_timeout_assertion=30.0)
+        self.retries = 0
         cctx = ContractContext(args=self.args, name="T", funsigs=[], creation_hexcode="", deployed_hexcode="", abi={},
                                method_identifiers={}, contract_json={}, libs={}, build_out_map={})
         self.fctx = FunctionContext(args=self.args, info=FunctionInfo("T", "test", "test()", "f8a8fd6d"), solver=None, contract_ctx=cctx)
@@ -93,6 +95,11 @@ class Pipeline:
         pc = self.K.path_ctx(self.args, self.n, self.fctx.solving_ctx, q)
         ncores = len(self.fctx.solving_ctx.unsat_cores)
         out = self.solve(pc)
+        if (out.result if isinstance(out.result, str) else str(out.result)) not in ("sat", "unsat"):
+            # no verdict (timeout under load / solver error): ask once more with a longer timeout
+            self.retries += 1
+            pc = self.K.path_ctx(self.args_long, self.n, self.fctx.solving_ctx, q)
+            out = self.solve(pc)
         self.fctx.call_sequences[self.n] = ""
         fut = Future()
         fut.set_result(out)
@@ -120,6 +127,22 @@ def correspond(ctx):
     logging.disable(logging.CRITICAL)
     rng = ctx.rng
     eng = K.Engine(nvars=3)
+    DEF = ("sat", "unsat")
+
+    def judge(v_on, v_off, t):
+        """the property: (1) cache-on `unsat` only for really unsatisfiable queries (z3 ground truth), (2) cache-on == cache-off when both
+        external runs produced a verdict.  Runs without a verdict (timeout / error) have nothing to compare: counted, never reported."""
+        if v_on not in DEF or v_off not in DEF:
+            ctx.count(f"solver-timing:on={v_on}:off={v_off}:truth={t}")
+        if t not in DEF:
+            ctx.count("solver-timing:ground-truth-unknown")
+        if v_on == "unsat" and t == "sat":
+            return True
+        if v_on in DEF and v_off in DEF and v_on != v_off:
+            return True
+        if v_on in DEF and t in DEF and v_on != t:
+            ctx.count(f"solver-vs-z3:on={v_on}:truth={t}")   # not the cache's doing (the solver itself answered); C05/C11 territory
+        return False
     tmp = FsPath(tempfile.mkdtemp(prefix="verif-c16-"))
     yices = shutil.which("yices-smt2") or "/venv/bin/yices-smt2"
     z3bin = shutil.which("z3") or "/venv/bin/z3"
@@ -313,7 +336,7 @@ def correspond(ctx):
             v_off, _, _, _ = off.query(path)
             rec.append((ids, v_on, v_off, core, new))
             ctx.count(f"history:{solver_name}:{'retain' if retain else 'drop'}:on={v_on}:off={v_off}")
-            if v_on != v_off or (t in ("sat", "unsat") and v_on in ("sat", "unsat") and v_on != t):
+            if judge(v_on, v_off, t):
                 flips += 1
                 recycled = any(k[0] == tag for k in unstable)
                 key = KEY_FLIP if (recycled and v_on == "unsat") else f"unsat-core-cache:verdict-differs[cache-on={v_on},cache-off={v_off},truth={t}]"
@@ -415,7 +438,7 @@ def correspond(ctx):
             for c in new:
                 core_ids.update(c)
             ctx.count(f"path-history:{what}:on={v_on}:off={v_off}")
-            if v_on != v_off or (t in ("sat", "unsat") and v_on in ("sat", "unsat") and v_on != t):
+            if judge(v_on, v_off, t):
                 flips.append((nq, ids, v_on, v_off, t, [c.sexpr()[:70] for c in conds][:5]))
             return v_on
 
@@ -491,14 +514,15 @@ def correspond(ctx):
                     i, d = c.get_id(), hashlib.sha1(c.sexpr().encode()).hexdigest()[:16]
                     if hist_seen.setdefault(i, d) != d:
                         nb += 1
+                t = truth(list(path.conditions))
                 v_on = on.query(path)[0]
                 v_off = off.query(path)[0]
                 nq += 1
                 ctx.count(f"path-history:sevm:on={v_on}:off={v_off}")
-                if v_on != v_off:
+                if judge(v_on, v_off, t):
                     nf += 1
                     ctx.violation("unsat-core-cache:path-history:verdict-flipped",
-                                  f"SEVM program {desc[:80]} ({name}): path {nq}: cache-on {v_on}, cache-off {v_off}", {"kind": "path-history-sevm", "desc": desc})
+                                  f"SEVM program {desc[:80]} ({name}): path {nq}: cache-on {v_on}, cache-off {v_off}, z3 says {t}", {"kind": "path-history-sevm", "desc": desc})
                 del ex, path
                 gc.collect()
             del it
@@ -561,7 +585,7 @@ def correspond(ctx):
                               f"with --cache-solver the query of a path extending a pre-state tracks ids {ids} but its conditions are {want_ids} "
                               f"({len(list(pres[pk].conditions))} inherited): cores cannot name the inherited conditions they depend on",
                               {"kind": "pre-states", "history": hi})
-            if v_on != v_off or (t in ("sat", "unsat") and v_on in ("sat", "unsat") and v_on != t):
+            if judge(v_on, v_off, t):
                 ctx.violation("unsat-core-cache:pre-states:verdict-flipped",
                               f"history {hi} ({sname}): query {nq} on pre-state {pk} (inherited {[str(c)[:50] for c in pres[pk].conditions]}) with body "
                               f"{[str(body_pool[b])[:50] for b in bodies]}: cache-on {v_on}, cache-off {v_off}, z3 says {t}; cached cores "
